@@ -4,10 +4,30 @@ PROPERTY = {
     'functions': ['xdoctest.runner:_run_examples', 'xdoctest.doctest_example:DocTest.run',
                   'xdoctest.doctest_example:DocTest.is_disabled',
                   'xdoctest.doctest_example:DocTest.cmdline', 'xdoctest.doctest_example:DocTest.node',
-                  'xdoctest.runner:doctest_module#gather',
+                  'xdoctest.runner:doctest_module#gather', 'xdoctest.runner:doctest_module', 'xdoctest.__main__:main#tail',
                   'xdoctest.runner:_convert_to_test_module', 'xdoctest.runner:_print_summary_report',
                   'xdoctest.runner:_auto_disable_failing_tests_hook',
                   'xdoctest.utils.util_str:color_text'],
-    'clauses': {'P': [], 'T': []},
-    'explanation': 'C10: tallies of the native runner.',
+    'clauses': {
+        'P': ['_run_examples: run is called exactly once per gathered example, in order, with on_error="return" (per-iteration '
+              'event clause); n_passed + n_failed + n_skipped == number of summaries (== n_total unless a KeyboardInterrupt '
+              'stopped the loop); the failed list is exactly the indices whose summary is failed, in order; len(failed) == n_failed',
+              'doctest_module (region from `gather_all =`): the list handed to _run_examples is exactly the examples with '
+              '(all/dump and not force-disabled) or (named by callname or callname:num), in order; list and dump run nothing; '
+              'the returned summary is the one _run_examples produced',
+              'is_disabled: force-disabled iff the source STARTS with one of the documented markers (re.match, IGNORECASE)',
+              'main (region from the doctest_module call): exit status 1 iff n_failed > 0, else 0',
+              'cmdline of a native doctest names it by path and callname:num (the text `list` prints is the join of these '
+              'over ALL parsed examples: the comprehension has no filter)'],
+        'T': ['DocTest.run: exactly one of passed/failed/skipped per summary and no Exception escapes with on_error="return" '
+              '(assumed here until the contract of run is discharged; C02.verdict / C09.noraise)',
+              're.match as an uninterpreted predicate per (pattern, flags)',
+              '_print_summary_report, _convert_to_test_module, the experimental after-all hook: no effect on the tallies'],
+        'N/A': ['what the process prints ("=== n failed ===" line) and the zero-argument-function fallback'],
+    },
+    'explanation': 'C10 as contracts on the runner loop, the gather loop and the exit status computation; counts are '
+                   'proved by loop invariants over ghost sequences of the summaries (count_true / true_indices).',
+    'assumptions': ['regions: doctest_module is verified from `gather_all = ...` to its end with the parse step and the '
+                    'zero-arg fallback dropped (examples is an arbitrary list of native-mode DocTest objects); main from the '
+                    'call of doctest_module to its end'],
 }
